@@ -497,12 +497,23 @@ def pipeline(prog: Program, rep) -> None:
     inner = f"self.trans_problem.restore_sol({xn}, {yn}, {dn})"
     ok_n = ok_s = False
     from .common import value_sites
-    for r, e_ in value_sites(rs, fr):
+    sites_ = []
+    for r in returns_of(rs):
+        # flow-sensitive value at the return if it is one tuple; otherwise the stores that can reach the returned name
+        if r.value is not None and (isinstance(fr.resolved(r, r.value), ast.Tuple) or U(fr.resolved(r, r.value)) == inner):
+            sites_.append((r, r.value))
+        else:
+            sites_ += [(s_, e2_) for s_, e2_ in value_sites(rs, fr) if s_ is r or True]
+    seen_sites = set()
+    for r, e_ in sites_:
+        if (id(r), id(e_)) in seen_sites:
+            continue
+        seen_sites.add((id(r), id(e_)))
         v = fr.resolved(r, e_)
         facts = fr.at(r).facts
         els = [U(e) for e in v.elts] if isinstance(v, ast.Tuple) else []
         if ("is", "self.scaling", "None") in facts:
-            ok_n = els == [f"__item__({inner}, {k})" for k in range(3)]
+            ok_n = els == [f"__item__({inner}, {k})" for k in range(3)] or U(v) == inner
         else:
             ok_s = els == [f"self.scaling.unscale_primal(__item__({inner}, 0))", f"self.scaling.unscale_dual(__item__({inner}, 1))", f"self.scaling.unscale_bounds_dual(__item__({inner}, 2))"]
     if not (ok_n and ok_s):
@@ -703,6 +714,44 @@ def _no_slacks(facts) -> bool:
     return any(f in facts for f in (("==", L, "0"), ("falsy", L, None), ("<=", L, "0"), ("<", L, "1")))
 
 
+def _slack_start_generic_loop(ft, st, lp_, tgt, clip_ok):
+    """loop variables of `for [i,] (a, b, ..) in [enumerate(]zip(S1, S2, ..)[)]` stand for S1[i], S2[i], ..; a gathered sequence
+    indexed again, A[P][i], is A[P[i]].  Returns the verdict of clip_ok on the stored value spelled that way, None if the loop
+    is of another kind."""
+    import copy as _copy
+    it, target = lp_.iter, lp_.target
+    idx = None
+    if isinstance(it, ast.Call) and dotted(it.func) == "enumerate" and len(it.args) == 1 and isinstance(target, ast.Tuple) and len(target.elts) == 2 \
+            and isinstance(target.elts[0], ast.Name):
+        idx, target, it = target.elts[0].id, target.elts[1], it.args[0]
+    if isinstance(it, ast.Call) and dotted(it.func) == "zip" and isinstance(target, ast.Tuple) and len(target.elts) == len(it.args):
+        pairs = list(zip(target.elts, it.args))
+    elif isinstance(target, ast.Name):
+        pairs = [(target, it)]
+    else:
+        return None
+    if idx is None or not all(isinstance(t, ast.Name) for t, _ in pairs) or not isinstance(tgt, ast.Subscript) or U(tgt.slice) != idx:
+        return None
+    I = ast.Name(id=idx, ctx=ast.Load())
+    sub = {t.id: ast.Subscript(value=ft.resolved(lp_, s_), slice=I, ctx=ast.Load()) for t, s_ in pairs}
+    keep = set(sub) | {idx}
+    v = _resolve_keep(ft, st, st.value, keep)
+
+    class S(ast.NodeTransformer):
+        def visit_Name(self, n):
+            return _copy.deepcopy(sub[n.id]) if n.id in sub and isinstance(n.ctx, ast.Load) else n
+
+    class G(ast.NodeTransformer):
+        # A[P][i] -> A[P[i]]
+        def visit_Subscript(self, n):
+            self.generic_visit(n)
+            if isinstance(n.value, ast.Subscript) and U(n.slice) == idx and not isinstance(n.value.slice, (ast.Slice, ast.Constant)):
+                return ast.copy_location(ast.Subscript(value=n.value.value, slice=ast.Subscript(value=n.value.slice, slice=n.slice, ctx=ast.Load()), ctx=n.ctx), n)
+            return n
+    v = ast.fix_missing_locations(G().visit(S().visit(_copy.deepcopy(v))))
+    return bool(clip_ok(v, f"self.slack_positions[{idx}]"))
+
+
 def _slack_start(prog, rep, ts, ft, ox) -> None:
     """starting slack k = clip(c(x0)[pos], cons_lb[pos], cons_ub[pos]) with pos = slack_positions[k]; accepted shapes: the
     enumerate loop with one store per k, a comprehension over slack_positions stored as a whole, the vectorised fancy-index form."""
@@ -764,7 +813,9 @@ def _slack_start(prog, rep, ts, ft, ox) -> None:
             ok = U(tgt.slice) == i_ and clip_ok(v, f"self.slack_positions[{i_}]") and len(it.args) == 1 and \
                 U(ft.resolved(lp_, it.args[0])) in ("len(self.slack_positions)", "__item__(self.slack_positions.shape, 0)")
         else:
-            raise AnalysisError("transform_sol: loop computing the starting slacks not recognised")
+            ok = _slack_start_generic_loop(ft, st, lp_, tgt, clip_ok)
+            if ok is None:
+                raise AnalysisError("transform_sol: loop computing the starting slacks not recognised")
     else:
         whole = isinstance(tgt, ast.Name) or (isinstance(tgt, ast.Subscript) and isinstance(tgt.slice, ast.Slice) and tgt.slice.lower is None and tgt.slice.upper is None and tgt.slice.step is None)
         v = st.value
